@@ -40,4 +40,22 @@ Section DrainAt.
       n <- uadd cfg vl (d_rem d3) ;;                 (* (checked `+`: panics in debug, wraps in release) *)
       set_len v n
     else ret tt.
+
+  (* impl Drop for Drain, with Rust's drop glue written out: the guard built inside the loop runs
+     DropGuard::drop when `drop(item)` unwinds (a second panic inside it aborts); the temporary guard of
+     the last statement runs it at once.  The loop without the glue is drain_rest_at (the body that
+     EquivDropGuard.drain_drop_body_equiv ties); the glue is hand-written here as it is in
+     Machine.drain_drop, which the run executes. *)
+  Fixpoint drain_drop_loop_at (fuel gfuel : nat) (i : nat) : M unit :=
+    match fuel with
+    | O => fun s => (OutOfFuel, s)
+    | S fuel =>
+        o <- drain_next_at cfg i ;;
+        match o with
+        | None => ret tt
+        | Some e => on_unwind (drop_elem cfg e) (drain_guard_at gfuel i) ;;; drain_drop_loop_at fuel gfuel i
+        end
+    end.
+  Definition drain_drop_at (fuel : nat) (i : nat) : M unit :=
+    drain_drop_loop_at fuel fuel i ;;; drain_guard_at fuel i.
 End DrainAt.
